@@ -228,7 +228,7 @@ func chooseBases(c *core.Ctx, l *linter, nProto, nRandom, maxValues int) ([]Name
 		protos = append(protos[k:], protos[:k]...)[:nProto]
 	}
 	var cands []NamedBase
-	tried, invalid := 0, 0
+	tried, invalid, tooBig := 0, 0, 0
 	for i := 0; len(cands) < nRandom*3 && i < nRandom*40; i++ {
 		seed := c.Seed*100003 + int64(i)
 		s := randomBase(seed, maxBit).norm()
@@ -241,10 +241,15 @@ func chooseBases(c *core.Ctx, l *linter, nProto, nRandom, maxValues int) ([]Name
 			invalid++
 			continue
 		}
+		if estimateValues(s) > float64(maxValues)*40 {
+			tooBig++
+			continue
+		}
 		cands = append(cands, NamedBase{fmt.Sprintf("random/%d", seed), s})
 	}
 	c.Set("random_bases_tried", tried)
 	c.Set("random_bases_rejected_by_generator", invalid)
+	c.Set("random_bases_skipped_value_space_estimate", tooBig)
 	if tried > 0 && invalid*10 > tried*7 {
 		return nil, fmt.Errorf("vacuous: %d of %d random bases rejected by the generator front end", invalid, tried)
 	}
